@@ -358,6 +358,11 @@ def gen_ops(rng, n, ne=None, nn=None, raw=False):
     ops = []
     for _ in range(n):
         r = rng.random()
+        if raw and rng.random() < 0.12:
+            # AuthService.update_profile with another name / URL for an existing id (a rename, possibly to a name that
+            # is the active profile's name in another environment)
+            ops.append(("rawupdate", rng.randrange(1, 5), rng.choice(names), rng.randrange(ne)))
+            continue
         if r < 0.12:
             ops.append(("envadd", rng.randrange(ne), rng.random() < 0.5))
         elif r < 0.22:
@@ -414,6 +419,18 @@ def gen_scenario(rng, n):
             out.append(noise.pop())
         out.append(op)
     return out + noise
+
+
+def gen_rename_scenario(rng, n):
+    """The same profile name in two environments, another name beside it in the first one, the first one's profile
+    selected - then the OTHER environment's same-named profile is renamed (AuthService.update_profile) to that other
+    name.  The active profile of the current environment must not move.  No noise before the core (creation indices)."""
+    ne = rng.choice([2, 3, 4])
+    a, b = rng.sample(range(ne), 2)
+    k1, k2 = rng.sample([0, 1, 3], 2)
+    core_ops = [("envadd", a, True), ("create", k2, 1), ("create", k1, 1), ("envadd", b, True), ("create", k1, 1),
+                ("switch", a), ("select", KEYNAME[k1]), ("rawupdate", 3, KEYNAME[k2], b)]
+    return core_ops + gen_ops(rng, max(0, n - len(core_ops)), ne=ne)
 
 
 # ---- the property, evaluated on the real code ---------------------------------------------
